@@ -262,6 +262,10 @@ func (e *Engine) callFunc(st *State, instr ssa.Instruction, fn *ssa.Function, ar
 		}
 		e.unmodelled(st, name)
 		for _, a := range args {
+			if strings.Contains(a.T, "arrview!") {
+				// A13: unknown code might write through the view
+				panic(unsupported{"a slice of a local or package-level array is passed to unmodelled code: " + name})
+			}
 			e.escape(st, a)
 		}
 		for _, b := range bind {
@@ -636,6 +640,10 @@ func (e *Engine) havocLoc(st *State, env *Env, loc string) {
 			panic(err.Error())
 		}
 		v := env.eval(cl.Expr)
+		if strings.Contains(v.T, "arrview!") {
+			// A13: a slice of a local / package-level array is a read-only view
+			panic(unsupported{"a callee writes through a slice of a local or package-level array"})
+		}
 		switch t := v.Ty.Underlying().(type) {
 		case *types.Slice:
 			c, s := e.elemComp(t.Elem())
